@@ -84,7 +84,11 @@ class C13:
             if rng.random() < 0.5:
                 for _ in range(rng.randint(1, 2)):
                     noise.append([rng.randint(0, len(deps)), rng.choice(["docker://reg/img:1", "../vendored/x", "urn:cnb:registry:heroku/y", "./local"])])
-            nodes.append({"id": idperm[i], "deps": deps, "noise": noise})
+            node = {"id": idperm[i], "deps": deps, "noise": noise}
+            # a third of the buildpacks live inside an earlier buildpack's directory (nested layout)
+            if i > 0 and rng.random() < 0.33:
+                node["parent"] = rng.randrange(i)
+            nodes.append(node)
         return {"nodes": nodes, "root_lists": [[idperm[r] if r < n else r for r in rl] for rl in root_lists]}
 
     def gen(self, rng, tier):
@@ -160,7 +164,7 @@ class C13:
             for k, n in enumerate(c["nodes"]):
                 for j in range(len(n["deps"])):
                     nodes = [dict(x) for x in c["nodes"]]
-                    nodes[k] = {"id": n["id"], "deps": n["deps"][:j] + n["deps"][j + 1:], "noise": n.get("noise", [])}
+                    nodes[k] = dict(n, deps=n["deps"][:j] + n["deps"][j + 1:])
                     yield {"nodes": nodes, "root_lists": rls}
 
     def sample(self, c, o):
